@@ -349,7 +349,17 @@ func (c *ctx) ecCase(ix *index, full bool) {
 
 	deleted := map[uint64]bool{}
 	requested := map[uint64]bool{}
-	prev := orig
+	prev := append([]byte{}, orig...) // expected bytes before the step
+	want := append([]byte{}, orig...) // expected bytes after the step (updated in place)
+	got := make([]byte, len(orig)+E)
+	ecxR, err := os.Open(base + ".ecx")
+	r.Must(err, "open .ecx for reading")
+	defer ecxR.Close()
+	ecjR, err := os.Open(base + ".ecj")
+	r.Must(err, "open .ecj for reading")
+	defer ecjR.Close()
+	journaled := 0 // journal entries seen so far
+	last8 := make([]byte, 8)
 	findCheck := func(k uint64, after uint64) bool {
 		off, size, err := ev.FindNeedleFromEcx(types.NeedleId(k))
 		r.Eval(1)
@@ -394,9 +404,10 @@ func (c *ctx) ecCase(ix *index, full bool) {
 		}
 		if p >= 0 {
 			deleted[k] = true
+			copy(want[p*E+sizeAt:p*E+sizeAt+4], []byte{0xff, 0xff, 0xff, 0xff})
 		}
-		want := ix.sortedBytes(deleted)
-		got, _ := ioutil.ReadFile(base + ".ecx")
+		ng, _ := ecxR.ReadAt(got, 0) // whole file (the buffer is one entry longer than the file should be)
+		got := got[:ng]
 		r.Eval(1)
 		if !bytes.Equal(got, want) {
 			shift := "other"
@@ -417,25 +428,32 @@ func (c *ctx) ecCase(ix *index, full bool) {
 			r.Must(ioutil.WriteFile(base+".ecx", want, 0644), "repair .ecx")
 			r.Count("ecx_repaired_after_known_finding", 1)
 		}
-		prev = want
-		// journal
-		js, jlen := readJournal(base + ".ecj")
+		if p >= 0 {
+			copy(prev[p*E+sizeAt:p*E+sizeAt+4], []byte{0xff, 0xff, 0xff, 0xff})
+		}
+		// journal: grew by at most one entry, which is this key (the whole journal is checked after the last step)
+		jst, _ := ecjR.Stat()
+		jlen := int(jst.Size())
 		r.Eval(1)
-		if jlen%8 != 0 {
-			r.Violation(c.sig(lib.Sig{"op": "ecx-delete", "class": "journal-torn"}), c.detail(ix, map[string]interface{}{"key": k, "journal_len": jlen}))
+		if jlen%8 != 0 || jlen/8 < journaled || jlen/8 > journaled+1 {
+			r.Violation(c.sig(lib.Sig{"op": "ecx-delete", "class": "journal-torn"}), c.detail(ix, map[string]interface{}{"key": k, "journal_len": jlen, "entries_before": journaled}))
 			return
 		}
-		if p >= 0 && (len(js) == 0 || js[len(js)-1] != k) {
-			r.Violation(c.sig(lib.Sig{"op": "ecx-delete", "class": "not-journaled", "key": st.Kind}), c.detail(ix, map[string]interface{}{"key": k, "journal": len(js)}))
+		grew := jlen/8 == journaled+1
+		journaled = jlen / 8
+		if grew {
+			ecjR.ReadAt(last8, int64(jlen-8))
+		}
+		lastKey := binary.BigEndian.Uint64(last8)
+		if p >= 0 && (!grew || lastKey != k) {
+			r.Violation(c.sig(lib.Sig{"op": "ecx-delete", "class": "not-journaled", "key": st.Kind}), c.detail(ix, map[string]interface{}{"key": k, "journal": journaled}))
 			return
 		}
-		for _, jk := range js {
-			if !requested[jk] {
-				r.Violation(c.sig(lib.Sig{"op": "ecx-delete", "class": "journal-has-foreign-key"}), c.detail(ix, map[string]interface{}{"key": k, "foreign": jk}))
-				return
-			}
+		if grew && lastKey != k {
+			r.Violation(c.sig(lib.Sig{"op": "ecx-delete", "class": "journal-has-foreign-key"}), c.detail(ix, map[string]interface{}{"key": k, "foreign": lastKey}))
+			return
 		}
-		if p < 0 && len(js) > 0 && js[len(js)-1] == k {
+		if p < 0 && grew {
 			r.Count("absent_key_journaled(not decisive)", 1)
 		}
 		// reads
@@ -451,7 +469,7 @@ func (c *ctx) ecCase(ix *index, full bool) {
 				ok = findCheck(o, k) && ok
 			}
 			r.Count("full_find_sweeps", 1)
-		} else {
+		} else if si%2 == 0 {
 			for j := 0; j < 3; j++ {
 				ok = findCheck(ix.Keys[rng.Intn(len(ix.Keys))], k) && ok
 			}
@@ -462,7 +480,7 @@ func (c *ctx) ecCase(ix *index, full bool) {
 	}
 	ev.Close()
 	closed = true
-	final := ix.sortedBytes(deleted)
+	final := want
 	liveWant := map[uint64]entry{}
 	for k, e := range ix.Live {
 		if !deleted[k] {
@@ -471,6 +489,23 @@ func (c *ctx) ecCase(ix *index, full bool) {
 	}
 	journal, _ := ioutil.ReadFile(base + ".ecj")
 	js, _ := readJournal(base + ".ecj")
+	r.Eval(1)
+	for _, jk := range js {
+		if !requested[jk] {
+			r.Violation(c.sig(lib.Sig{"op": "ecx-delete", "class": "journal-has-foreign-key"}), c.detail(ix, map[string]interface{}{"foreign": jk}))
+			break
+		}
+	}
+	inJournal := map[uint64]bool{}
+	for _, jk := range js {
+		inJournal[jk] = true
+	}
+	for k := range deleted {
+		if !inJournal[k] {
+			r.Violation(c.sig(lib.Sig{"op": "ecx-delete", "class": "not-journaled"}), c.detail(ix, map[string]interface{}{"key": k, "journal": len(js)}))
+			break
+		}
+	}
 
 	// (1) .idx from the marked .ecx + journal
 	r.Case(map[string]interface{}{"build": build, "index": ix.I, "step": "WriteIdxFileFromEcIndex(marked ecx)"})
@@ -721,7 +756,7 @@ func main() {
 	r.Assume("after a listed finding the harness rewrites the index file to the bytes the delete should have produced, so that later steps are judged on their own")
 
 	maxN := r.Pick(200, 2000)
-	nIdx := r.Pick(50, 500)
+	nIdx := r.Pick(50, 150)
 
 	if r.Replay != "" {
 		var d struct {
